@@ -12,7 +12,7 @@ CONSTANTS
     PageSizes = {0, 1, 2}
     PageModes = {"key", "total", "offset"}
     WithQueries = TRUE
-INVARIANTS T_Unique T_ListingsTotal T_ListingComplete
+INVARIANTS T_Unique T_ListingsTotal T_LookupExact T_ListingComplete
 PROPERTIES T_Steps
 POSTCONDITION T_AllConsumed
 CHECK_DEADLOCK FALSE
